@@ -94,8 +94,14 @@ impl SfTag {
         match tag {
             Some(cow) => {
                 let key = cow.to_string();
+                // A verbatim tag such as `!<tag:yaml.org,2002:str>` has no handle and is
+                // displayed as `!tag:yaml.org,2002:str`: look it up by its URI.
+                let key = match key.strip_prefix('!') {
+                    Some(uri) if uri.starts_with("tag:") => uri,
+                    _ => key.as_str(),
+                };
                 TAG_LOOKUP_MAP
-                    .get(key.as_str())
+                    .get(key)
                     .copied()
                     .unwrap_or(SfTag::Other)
             }
